@@ -265,6 +265,8 @@ pub fn run_matrix(tier: &str, seed: u64, out: &mut Out) {
         "a ? b : c", "a ? b + 1 : c", "a ? 'tab ' + b : ''", "d ?? b", "n ?? b", "l[d]", "o[s]", "o[s].x", "a ? l[d] : c", "(a ? o : l).a",
         "a && b || c", "[a, b][d]", "{x: a, y: b}.x", "a + b", "o.b.x", "'p ' + (a ? b : '')", "l || []", "[a, b]", "o.list || []",
         "a ? l : [b]", "l[d].a", "[l[d], o[s]]", "{k: l[d]}", "f(a ? b : c)", "!(a ? b : c)", "l.length", "s.length",
+        // script module members (their l-value paths name the module and the member)
+        "a ? m.f : m.g", "m[s]", "a ? m.x : b", "m.o[s]", "(a ? m : o).x",
     ];
     let configs: Vec<J> = vec![
         json!({"$o": {"a": 1, "b": "B", "c": "C", "d": 0, "n": null, "s": "a", "f": {"$fn": "ff"},
@@ -289,9 +291,10 @@ pub fn run_matrix(tier: &str, seed: u64, out: &mut Out) {
     let mut id = 0;
     for shape in shapes.iter() {
         let e = shape;
+        let wxs = "<wxs module=\"m\">exports.f = function(){ return 'F' }; exports.g = function(){ return 'G' }; exports.a = 'ma'; exports.x = 'mx'; exports.b = 'mb'; exports.o = { a: 'moa', x: 'mox', b: 'mob' }</wxs>";
         let attrs_only = format!(
-            "<view id=\"{{{{{e}}}}}\" class=\"{{{{{e}}}}}\" style=\"{{{{{e}}}}}\" hidden=\"{{{{{e}}}}}\" p=\"{{{{{e}}}}}\" q-r=\"x{{{{{e}}}}}y\" data-k=\"{{{{{e}}}}}\" data:j=\"{{{{{e}}}}}\" mark:m=\"{{{{{e}}}}}\" bind:tap=\"{{{{{e}}}}}\" model:v=\"{{{{{e}}}}}\" change:p=\"{{{{{e}}}}}\">{{{{{e}}}}}|x{{{{{e}}}}}y</view><c class=\"k {{{{{e}}}}}\" style=\"a:{{{{{e}}}}}\"><view slot=\"{{{{{e}}}}}\">{{{{ {e} }}}}</view></c>",
-            e = e);
+            "{wxs}<view id=\"{{{{{e}}}}}\" class=\"{{{{{e}}}}}\" style=\"{{{{{e}}}}}\" hidden=\"{{{{{e}}}}}\" p=\"{{{{{e}}}}}\" q-r=\"x{{{{{e}}}}}y\" data-k=\"{{{{{e}}}}}\" data:j=\"{{{{{e}}}}}\" mark:m=\"{{{{{e}}}}}\" bind:tap=\"{{{{{e}}}}}\" model:v=\"{{{{{e}}}}}\" change:p=\"{{{{{e}}}}}\">{{{{{e}}}}}|x{{{{{e}}}}}y</view><c class=\"k {{{{{e}}}}}\" style=\"a:{{{{{e}}}}}\"><view slot=\"{{{{{e}}}}}\">{{{{ {e} }}}}</view></c>",
+            e = e, wxs = if e.contains("m.") || e.contains("m[") || e.contains("m :") { wxs } else { "" });
         let full = format!(
             "{attrs}<block wx:if=\"{{{{{e}}}}}\">T{{{{b}}}}</block><block wx:else>F{{{{c}}}}</block><block wx:for=\"{{{{{e}}}}}\">{{{{index}}}}={{{{item}}}}/{{{{item.a}}}}/{{{{item.x}}}};</block><v wx:for=\"{{{{{e}}}}}\" wx:for-item=\"it\" wx:key=\"a\" k=\"{{{{it.a}}}}\">{{{{it.x}}}}</v><template name=\"t\">[{{{{x}}}}|{{{{x.a}}}}|{{{{x[0]}}}}]</template><template is=\"t\" data=\"{{{{x: {e}}}}}\"/><slot name=\"{{{{{e}}}}}\" v=\"{{{{{e}}}}}\"/><c><view slot:sv wx:if=\"{{{{{e}}}}}\">{{{{ {e} }}}}{{{{sv}}}}</view></c>",
             attrs = attrs_only, e = e);
